@@ -203,12 +203,33 @@ def run(case):
         ysnap = json.dumps(flatten(sp, y))
         o["mut_add_xy"] = flatten(sp, vs.mut_add(xc, y))
         o["y_intact"] = bool(json.dumps(flatten(sp, y)) == ysnap)
+        # add() hands back memory of its own as well (add_outgrads accumulates into it in place later): also when an operand is all zeros
+        zv = vs.zeros()
+        for w_ in (vs.add(x, y), vs.add(x, zv), vs.add(zv, y)):
+            shares = shares or any(isinstance(a, onp.ndarray) and isinstance(b, onp.ndarray) and a.ndim and onp.shares_memory(a, b)
+                                   for a in leaves(w_) for b in leaves(x) + leaves(y) + leaves(zv))
         o["fresh"] = bool(fresh_equal and not shares)
         o["smul"] = flatten(sp, vs.scalar_mul(x, float(case["a"])))
         ip, ip2 = vs.inner_prod(x, y), vs.inner_prod(y, x)
         o["inner"] = int(round(float(ip))) if float(ip) == round(float(ip)) else -999999
         o["inner_yx"] = int(round(float(ip2))) if float(ip2) == round(float(ip2)) else -999999
         o["inner_real"] = bool(not onp.iscomplexobj(ip))
+        # the inner product keeps the precision and range of the leaves: for extended-precision (longdouble) leaves, scaling both vectors by
+        # 2^600 scales it by 2^1200 exactly (beyond the range of a double; skipped where long double is a double)
+        o["inner_scaled_ok"] = True
+        if isinstance(x, (tuple, list, dict)) and onp.finfo(onp.longdouble).maxexp > 2000 and not any(onp.iscomplexobj(l) for l in leaves(x)) and leaves(x):
+            def ext(v):       # the extended-precision twin of a real vector: same structure, every leaf a longdouble array
+                if isinstance(v, dict):
+                    return {k_: ext(q) for k_, q in v.items()}
+                if isinstance(v, (tuple, list)):
+                    return type(v)(ext(q) for q in v) if type(v) in (tuple, list) else type(v)(*[ext(q) for q in v])
+                return onp.asarray(v, dtype=onp.longdouble)
+            xl, yl = ext(x), ext(y)
+            vl = vspace(xl)
+            s_ = onp.longdouble(2) ** 600
+            small = vl.inner_prod(xl, yl)
+            big = vl.inner_prod(vl.scalar_mul(xl, s_), vl.scalar_mul(yl, s_))
+            o["inner_scaled_ok"] = bool(onp.longdouble(small) == onp.longdouble(float(ip)) and onp.longdouble(big) == onp.longdouble(small) * s_ * s_)
         o["cov"] = flatten(sp, vs.covector(x))
         o["covcov"] = flatten(sp, vs.covector(vs.covector(x)))
         o["zeros"] = flatten(sp, vs.zeros())
